@@ -18,7 +18,6 @@ def table(name):
 
 results, suites = table('RESULTS.tsv'), table('SUITE.tsv')
 notes_status = {
-    'C03-D': 'missed: the pair of edits needs an old-share partial for the transition round to reach the aggregator before the switch and no partial of another round in between; in every schedule of c03-transition (K<=2) the node\'s own re-signed partial of round T-1 refreshes the cached threshold first (the demonstration drives ProcessPartialBeacon on a handler that never ticks)',
     'C10-A': 'neutralised: since fix 382e6979 (consecutive rounds required in a sync stream) the change no longer breaks the property; its own demonstration passes with the (ported) change applied, and the check correctly reports nothing',
 }
 for d in sorted(os.listdir(S)):
